@@ -1907,9 +1907,11 @@ def size_cases(tier):
 
             out.append(('as-path', f'as-path-{n}-asns' + ('' if large_at is None else f'-4-octet-at-{large_at}'),
                         {'conf': 'static { %s; }' % text, 'prt': text, 'api': 'peer * announce ' + text}, True, chk, False))
-    # ---- attribute value across 65535 octets (the most the two-octet attribute length holds): n ASNs take
-    #      2 * ceil(n / 255) + 4 * n octets, 65534 for n = 16351 and 65538 for n = 16352
-    for n in (16351, 16352, 17000):
+    # ---- attribute value up to and across what any message can carry: n ASNs take 2 * ceil(n / 255) + 4 * n octets.
+    #      The route below needs 23 (header, two lengths) + 4 (ORIGIN) + 7 (NEXT_HOP) + 4 (NLRI) + 4 (AS_PATH header) octets
+    #      around it, and 7 more (LOCAL_PREF) on iBGP: 16339 ASNs (65486 octets) fill a 65535-octet message on iBGP exactly,
+    #      16340 (65490) still fit eBGP, 16341 (65494) fit no message at all, 16352 (65538) not even the attribute length.
+    for n in (16300, 16339, 16340, 16341, 16351, 16352, 17000):
         asns = [64512 + (i % 1000) for i in range(n)]
         text = f'{BASE4} as-path [ {" ".join(str(a) for a in asns)} ]'
 
@@ -1921,8 +1923,14 @@ def size_cases(tier):
             got = [a for _, l in segs for a in l]
             return None if got == asns else f'AS_PATH carries {len(got)} ASNs, written {len(asns)}'
 
+        def carriers(x, n=n):
+            # the sessions whose largest message holds this route: AS numbers take 2 octets towards a 2-octet peer,
+            # iBGP adds LOCAL_PREF (7), ADD-PATH a path identifier (4)
+            need = 23 + 4 + 7 + 4 + 2 * -(-n // 255) + (4 if x.asn4 else 2) * n + 4 + (7 if x.ibgp else 0) + (4 if x.addpath else 0)
+            return need <= x.msg_size
+
         out.append(('attribute-over-65535', f'as-path-{n}-asns-{2 * -(-n // 255) + 4 * n}-octets',
-                    {'conf': 'static { %s; }' % text, 'prt': text, 'api': 'peer * announce ' + text}, 2 * -(-n // 255) + 4 * n <= 65535, chk, True))
+                    {'conf': 'static { %s; }' % text, 'prt': text, 'api': 'peer * announce ' + text}, n <= 16340, chk, carriers))
     # ---- attribute value length across 255 octets (extended-length flag)
     def listcase(name, code, kw, items, raw_of, unit):
         text = f'{BASE4} {kw} [ {" ".join(items)} ]'
@@ -1990,15 +1998,20 @@ def judge_sizes(run, tier, stats):
                 found.append((f'exception:{cls}:size:{kind}', f'{entry}: {name}: {val}', {'name': name, 'texts': {entry: short}}))
                 continue
             if not sendable:
-                found.append(('accepted-but-cannot-encode:attribute-over-65535-octets' if kind == 'attribute-over-65535' else f'accepted-but-cannot-encode:size:{kind}', f'{entry}: {name} is accepted although no session can carry it (the wire length field cannot hold it)',
+                found.append(('accepted-but-cannot-encode:attribute-over-65535-octets' if kind == 'attribute-over-65535' else f'accepted-but-cannot-encode:size:{kind}', f'{entry}: {name} is accepted although no session can carry it (it does not fit the length field / the largest message)',
                               {'name': name, 'texts': {entry: short}}))
                 continue
             if len(val) != 1:
                 found.append((f'accepted-without-route:size:{kind}', f'{entry}: {name}: {len(val)} routes', {'name': name, 'texts': {entry: short}}))
                 continue
             for sess in sessions():
-                if needs_big and sess.msg_size == 4096:
-                    continue  # does not fit a 4096-octet message: only the extended-message sessions can carry it
+                # what does not fit a 4096-octet message is carried by the extended-message sessions only (and the last
+                # octets before 65535 by the sessions that add no LOCAL_PREF): the session's limit, not the parser's
+                if callable(needs_big):
+                    if not needs_big(sess):
+                        continue
+                elif needs_big and sess.msg_size == 4096:
+                    continue
                 try:
                     msgs = encode_decode(val[0], sess)
                 except Exception as e:
